@@ -8,11 +8,11 @@ import (
 )
 
 type Outcome struct {
-	Dec     map[string]int
-	Result  Val
-	Aborted string
-	Units   []*Unit
-	Used    []DecUse
+	Dec      map[string]int
+	Result   Val
+	Aborted  string
+	Units    []*Unit
+	Used     []DecUse
 	assigned []FieldAssign
 }
 
